@@ -205,6 +205,10 @@ def family(tier):
         add(r)
     for r in G.policy_inheritance_records() + G.base_first_records():
         add(r)
+    # a bootstrapped subclass with the opposite copy policy must not change how the parent treats its arguments / defaults
+    add(G.single("nums", "mut", flip_sub=True))
+    add(G.single("leaf", "mut", flip_sub=True))
+    add(G.single("scores", "attr_factory", flip_sub=True))
     # defaults that the attribute's preparer changes: a reset value must equal what a new instance holds
     add(G.single("words", "mut", preparers=["words"]))
     add(G.single("words", "mut", item_preparers=["words"]))
